@@ -1,7 +1,7 @@
 --------------------------- MODULE SilkSide2Trace ---------------------------
 (* Validation of recorded calls of the real stereo-predictor / LTP side-information functions and of whole-codec packets    *)
 (* (hx_silkside2) against module SilkSide2.  Stateless: one initial state per recorded case, every event carries the state   *)
-(* it started from.  Event kinds: sd sq ms dp lq l2 ln wc (wc_err carries no claim).                                        *)
+(* it started from.  Event kinds: sd sq ms lr dp lq l2 ln wc (wc_err carries no claim).                                        *)
 (*                                                                                                                          *)
 (*   CaseOK   clauses that property C18 states: decoded speech-layer parameters equal the normative dequantiser's and are   *)
 (*            in range; what the encoder keeps as "quantised" is what the decoder reconstructs    (rejection = VIOLATION)   *)
@@ -43,6 +43,22 @@ MsModel(e) ==
        /\ e.o1 = r.o1 /\ e.o2 = r.o2
 \* the part of it that is parameter state: pred_prev_Q13 := pred_Q13
 MsOK(e) == e.npp = << S16(e.pr[1]), S16(e.pr[2]) >>
+
+\* silk_stereo_LR_to_MS (encoder).  CaseOK part: what it quantised is codable and the predictors it goes on with are the dequantised ones
+\* (or zero when it collapses the width).  ModelOK part: history, mid signal, residual side signal, width / mid-only bookkeeping
+LrOK(e) ==
+  /\ StereoIxOK(e.ix) /\ IsBit(e.mo)
+  /\ (e.nw # 0) => e.npp = StereoDecodePred(e.ix)
+  /\ (e.nw = 0) => e.npp = << 0, 0 >>
+LrModel(e) ==
+  /\ e.fs \in {8, 12, 16} /\ e.fl \in {10 * e.fs, 20 * e.fs} /\ Len(e.x1) = e.fl + 2 /\ Len(e.x2) = e.fl + 2
+  /\ LET r == LrToMs(e.pp, e.sm, e.ss, e.wp, e.npp, e.nw, e.fs, e.fl, e.x1, e.x2) IN
+       /\ e.o1 = r.mid /\ e.o2 = r.res /\ e.nsm = r.nsm /\ e.nss = r.nss
+  /\ e.nw \in {0, 16384, e.nsw} /\ (e.nw = 16384 => e.nsw > 15565) /\ (e.nw \notin {0, 16384} => e.nsw <= 15565)
+  /\ (e.tomono = 1) => e.nw = 0 /\ e.mo = 0 /\ e.ix = << 1, 2, 2, 1, 2, 2 >>           \* zero predictors quantise to the level that is exactly 0 (interval 7, sub-step 2)
+  /\ (e.mo = 1) => e.nw = 0 /\ e.nssl = 10000 /\ e.wp = 0 /\ e.rates[2] = 0
+  /\ (e.mo = 0) => e.nssl < 5 * e.fs /\ e.rates[2] >= 1
+  /\ e.rates[1] >= 1
 
 \* silk_decode_parameters, LTP part
 LtpDecoded(st, per, idx, lsc, B, sc, pa) ==
@@ -124,6 +140,7 @@ CaseOK == LET e == Tr[l] IN
           IF e.k = "sd" THEN SdOK(e)
           ELSE IF e.k = "sq" THEN SqOK(e)
           ELSE IF e.k = "ms" THEN MsOK(e)
+          ELSE IF e.k = "lr" THEN LrOK(e)
           ELSE IF e.k = "dp" THEN DpOK(e)
           ELSE IF e.k = "lq" THEN LqOK(e)
           ELSE IF e.k = "wc" THEN WcOK(e)
@@ -133,6 +150,7 @@ CaseOK == LET e == Tr[l] IN
 ModelOK == LET e == Tr[l] IN
            IF e.k = "sq" THEN SqModel(e)
            ELSE IF e.k = "ms" THEN MsModel(e)
+           ELSE IF e.k = "lr" THEN LrModel(e)
            ELSE IF e.k = "lq" THEN LqModel(e)
            ELSE IF e.k = "l2" THEN L2Model(e)
            ELSE IF e.k = "ln" THEN LnModel(e)
